@@ -7,8 +7,8 @@ import (
 	"fmt"
 	"io/ioutil"
 	"net/http"
-	"runtime"
 	"os"
+	"runtime"
 	"sort"
 	"strconv"
 	"sync"
